@@ -1,8 +1,9 @@
 ----------------------------- MODULE Gen_Entity -----------------------------
 EXTENDS Entity
-CONSTANT What   \* "equality" | "clone"
+CONSTANTS What,   \* "equality" | "clone"
+          Scope   \* "quick": single features and selected pairs; "thorough": all pairs of features
 VARIABLE fv
-ModelsFor == {f \in Singles \cup Vary2("imports", "reset") \cup Vary2("depth", "twin") \cup Vary2("ids", "imports") : f.site = "none" /\ f.cls = "plain"}
+ModelsFor == {f \in (IF Scope = "thorough" THEN Pairs ELSE Singles \cup Vary2("imports", "reset") \cup Vary2("depth", "twin") \cup Vary2("ids", "imports")) : f.site = "none" /\ f.cls = "plain"}
 Init == fv \in ModelsFor
 Next == UNCHANGED fv
 Spec == Init /\ [][Next]_fv
